@@ -37,6 +37,10 @@ var All = []Prog{
 	{"chan-select-two-ready", selectTwoReady, false},
 	{"chan-select-default", selectDefault, false},
 	{"chan-send-on-closed-panics", sendOnClosed, false},
+	{"select-send-vs-plain-receive", selectSendVsRecv, false},
+	{"select-vs-select-rendezvous", selectVsSelect, false},
+	{"select-default-vs-parked-select", selectDefaultVsParked, false},
+	{"select-recv-vs-close", selectRecvVsClose, false},
 	{"chan-recv-from-closed", recvClosed, false},
 	{"timer-afterfunc-stop-early", func() string { return afterFuncStop(2) }, true},
 	{"timer-afterfunc-stop-late", func() string { return afterFuncStop(80) }, true},
@@ -396,4 +400,95 @@ func RecursiveReadLock() {
 	mu.RUnlock()
 	mu.RUnlock()
 	wg.Wait()
+}
+
+// A goroutine parked in a select with a send case is a waiting sender: a plain receive completes it.
+func selectSendVsRecv() string {
+	ch, stop := make(chan int), make(chan int)
+	res := make(chan string, 1)
+	go func() {
+		out := ""
+		select {
+		case ch <- 7:
+			out = "sent"
+		case <-stop:
+			out = "stopped"
+		}
+		res <- out
+	}()
+	v := <-ch
+	return fmt.Sprint(v, " ", <-res)
+}
+
+// Two selects rendezvous with each other on an unbuffered channel.
+func selectVsSelect() string {
+	ch, stop := make(chan int), make(chan int)
+	res := make(chan string, 2)
+	go func() {
+		out := ""
+		select {
+		case ch <- 5:
+			out = "sent"
+		case <-stop:
+			out = "sender stopped"
+		}
+		res <- out
+	}()
+	go func() {
+		out := ""
+		select {
+		case v := <-ch:
+			out = fmt.Sprint("got", v)
+		case <-stop:
+			out = "receiver stopped"
+		}
+		res <- out
+	}()
+	a, b := <-res, <-res
+	if a > b {
+		a, b = b, a
+	}
+	return a + " " + b
+}
+
+// A non-blocking send (select with default) to a goroutine that may or may not be parked in its
+// select yet: both "sent" and "default" are possible, never a lost or duplicated value.
+func selectDefaultVsParked() string {
+	done, tick := make(chan int), make(chan int)
+	got := make(chan int, 1)
+	go func() {
+		v := -1
+		select {
+		case v = <-done:
+		case v = <-tick:
+		}
+		got <- v
+	}()
+	out := ""
+	select {
+	case done <- 1:
+		out = "sent"
+	default:
+		out = "default"
+		tick <- 2 // release the goroutine
+	}
+	return fmt.Sprint(out, " ", <-got)
+}
+
+func selectRecvVsClose() string {
+	ch, other := make(chan int, 1), make(chan int)
+	res := make(chan string, 1)
+	go func() {
+		out := ""
+		select {
+		case v, ok := <-ch:
+			out = fmt.Sprint(v, ok)
+		case <-other:
+			out = "other"
+		}
+		res <- out
+	}()
+	ch <- 4
+	close(ch)
+	return <-res // the buffered value is received before the close is seen
 }
